@@ -17,6 +17,34 @@ from batchie.common import (
 logger = logging.getLogger(__name__)
 
 
+def encode_string_array(arr: ArrayType) -> ArrayType:
+    """
+    UTF-8 encode an array of strings for storage in hdf5.
+
+    np.char.encode turns an array without elements into an empty float64
+    array of shape (0,), which cannot be decoded again, so empty arrays
+    are handled separately (keeping their shape).
+
+    :param arr: array of strings
+    :return: array of bytes with the same shape
+    """
+    if arr.size == 0:
+        return np.empty(arr.shape, dtype="S1")
+    return np.char.encode(arr)
+
+
+def decode_string_array(arr: ArrayType) -> ArrayType:
+    """
+    Inverse of :py:func:`batchie.data.encode_string_array`.
+
+    :param arr: array of utf-8 encoded bytes
+    :return: array of strings with the same shape
+    """
+    if arr.size == 0:
+        return np.empty(arr.shape, dtype=str)
+    return np.char.decode(arr, "utf-8")
+
+
 def numpy_array_is_0_indexed_integers(arr: ArrayType):
     """
     Test numpy array arr contains only integers between 0 and n-1 with no gaps,
@@ -301,12 +329,12 @@ class ExperimentSpace:
         with h5py.File(path, "w") as f:
             f.create_dataset(
                 "treatment_names",
-                data=np.char.encode(self.treatment_mapping[0].astype(str)),
+                data=encode_string_array(self.treatment_mapping[0].astype(str)),
             )
             f.create_dataset("treatment_doses", data=self.treatment_mapping[1])
             f.create_dataset("treatment_ids", data=self.treatment_mapping[2])
             f.create_dataset(
-                "sample_names", data=np.char.encode(self.sample_mapping[0].astype(str))
+                "sample_names", data=encode_string_array(self.sample_mapping[0].astype(str))
             )
             f.create_dataset("sample_ids", data=self.sample_mapping[1])
             f.attrs["control_treatment_name"] = self.control_treatment_name
@@ -315,12 +343,12 @@ class ExperimentSpace:
     def load_h5(cls, path: str):
         with h5py.File(path, "r") as f:
             treatment_mapping = (
-                np.char.decode(f["treatment_names"][:], "utf-8"),
+                decode_string_array(f["treatment_names"][:]),
                 f["treatment_doses"][:],
                 f["treatment_ids"][:],
             )
             sample_mapping = (
-                np.char.decode(f["sample_names"][:], "utf-8"),
+                decode_string_array(f["sample_names"][:]),
                 f["sample_ids"][:],
             )
             control_treatment_name = f.attrs["control_treatment_name"]
@@ -1148,7 +1176,7 @@ class Screen(ScreenBase):
         with h5py.File(fn, "w") as f:
             f.create_dataset(
                 "treatment_names",
-                data=np.char.encode(self.treatment_names),
+                data=encode_string_array(self.treatment_names),
                 compression="gzip",
             )
             f.create_dataset(
@@ -1160,7 +1188,7 @@ class Screen(ScreenBase):
 
             f.create_dataset(
                 "treatment_mapping_names",
-                data=np.char.encode(self.treatment_mapping[0].astype(str)),
+                data=encode_string_array(self.treatment_mapping[0].astype(str)),
                 compression="gzip",
             )
             f.create_dataset(
@@ -1181,12 +1209,12 @@ class Screen(ScreenBase):
             f.create_dataset("sample_ids", data=self.sample_ids, compression="gzip")
             f.create_dataset(
                 "sample_names",
-                data=np.char.encode(self.sample_names),
+                data=encode_string_array(self.sample_names),
                 compression="gzip",
             )
             f.create_dataset(
                 "sample_mapping_names",
-                data=np.char.encode(self.sample_mapping[0].astype(str)),
+                data=encode_string_array(self.sample_mapping[0].astype(str)),
                 compression="gzip",
             )
             f.create_dataset(
@@ -1194,7 +1222,7 @@ class Screen(ScreenBase):
             )
             f.create_dataset("plate_ids", data=self.plate_ids, compression="gzip")
             f.create_dataset(
-                "plate_names", data=np.char.encode(self.plate_names), compression="gzip"
+                "plate_names", data=encode_string_array(self.plate_names), compression="gzip"
             )
             f.attrs["control_treatment_name"] = self.control_treatment_name
 
@@ -1207,19 +1235,19 @@ class Screen(ScreenBase):
         """
         with h5py.File(path, "r") as f:
             return Screen(
-                treatment_names=np.char.decode(f["treatment_names"][:], "utf-8"),
+                treatment_names=decode_string_array(f["treatment_names"][:]),
                 treatment_doses=f["treatment_doses"][:],
                 observations=f["observations"][:],
                 observation_mask=f["observation_mask"][:],
-                sample_names=np.char.decode(f["sample_names"][:], "utf-8"),
-                plate_names=np.char.decode(f["plate_names"][:], "utf-8"),
+                sample_names=decode_string_array(f["sample_names"][:]),
+                plate_names=decode_string_array(f["plate_names"][:]),
                 control_treatment_name=f.attrs["control_treatment_name"],
                 sample_mapping=(
-                    np.char.decode(f["sample_mapping_names"][:], "utf-8"),
+                    decode_string_array(f["sample_mapping_names"][:]),
                     f["sample_mapping_ids"][:],
                 ),
                 treatment_mapping=(
-                    np.char.decode(f["treatment_mapping_names"][:], "utf-8"),
+                    decode_string_array(f["treatment_mapping_names"][:]),
                     f["treatment_mapping_doses"][:],
                     f["treatment_mapping_ids"][:],
                 ),
